@@ -11,7 +11,7 @@ from ..engine import Outcome, dec, enc
 ID = "C20"
 RULE = (
     "cases = (problem, callback form, stop index k, overwrite flag): the problem is run with a never-stopping "
-    "callback of the drawn form (function, lambda, callable object, functools.partial; positional xk or keyword "
+    "callback of the drawn form (function, lambda, callable object, bound method, keyword-only function, functools.partial; positional xk or keyword "
     "intermediate_result), then again with the same callback raising StopIteration at its k-th call, then "
     "(flag) with a callback that overwrites the array it receives with NaN; non-trivial = k lies beyond the "
     "initial sampling, or scale / fixed variables are present; distinct = distinct spec hash"
@@ -29,7 +29,7 @@ PROFILE = dict(
     max_lin=2, max_nl=2, nl_forms=[("NC", 4), ("dict", 1)], faults=15, maxfev=(2, 45), opt_prob=30,
     callback_prob=0, scale_prob=40, infeasible_prob=20, target_prob=5, all_fixed=3,
 )
-FORMS = ["pos", "kw", "lambda_pos", "lambda_kw", "obj_pos", "obj_kw", "partial_pos", "partial_kw"]
+FORMS = S.CB_FORMS
 
 
 def budget(tier):
@@ -64,6 +64,14 @@ def run_case(spec):
         return out
     if t.exc is not None:
         out.label("crash:%s@%s" % (t.exc[0], t.exc[2]))
+        # crashes as such are C08's business - unless it is the callback that makes the call fail: a callback
+        # that never stops and touches nothing must not change whether minimize raises
+        nocb = copy.deepcopy(base)
+        nocb["callback"] = {"form": "none"}
+        b0, t0 = e2e.run(enc(nocb))
+        if t0.exc is None:
+            out.fail("C20.a.raise", "with a passive callback of form %s minimize raised %s: %s (it returns normally "
+                     "without the callback)" % (form, t.exc[0], t.exc[1]), form=form)
         return out
     r = t.result
     out.label("status%d" % r.status, "form:" + form)
